@@ -163,6 +163,8 @@ b("B47", TX, "\t\tlet parent_key_id = context.parent_key_id.clone();\n\t\tlet ex
 b("B48", FOREIGN, "\t\ttx::update_stored_tx(&mut *w, keychain_mask, &context, &sl, false)?;\n\t\t{\n\t\t\tlet mut batch = w.batch(keychain_mask)?;\n\t\t\tbatch.delete_private_context(sl.id.as_bytes())?;\n\t\t\tbatch.commit()?;\n\t\t}\n", "\t\ttx::update_stored_tx(&mut *w, keychain_mask, &context, &sl, false)?;\n\t\tdebug!(\"finalize_tx: stored, dropping the context of {}\", sl.id);\n\t\tlet mut batch = w.batch(keychain_mask)?;\n\t\tbatch.delete_private_context(sl.id.as_bytes())?;\n\t\tbatch.commit()?;\n", "context deletion without its own block, log line in between")
 
 b("B49", OWNER, "\tif context.late_lock_args.is_some() {\n\t\treturn Ok(());\n\t}\n", "\tif let Some(_) = context.late_lock_args {\n\t\treturn Ok(());\n\t}\n", "late-lock test written as if-let")
+b("B50", CTRL, "\t\tif !req.is_object() || req[\"method\"].as_str() != Some(\"encrypted_request_v3\") {", "\t\tlet named = req[\"method\"].as_str() == Some(\"encrypted_request_v3\");\n\t\tif !(req.is_object() && named) {", "envelope test written positively")
+b("B51", OWNER, "\t\tstd::cmp::max(w.last_confirmed_height()?, w.last_scanned_block()?.height);", "\t\tw.last_scanned_block()?.height.max(w.last_confirmed_height()?);", "max() written as a method, operands swapped")
 
 def _apply(mu, repo_copy):
     p = os.path.join(repo_copy, mu["file"])
